@@ -196,6 +196,11 @@ Vector Vector::operator=(Vector v)
 
 Vector& Vector::operator+=(const Vector& v)
 {
+	if(dimension != v.dimension)
+	{
+		std::cerr << "Error in libphysica::Vector::operator+=(const Vector& v): Two vectors of dimensions " << dimension << " and " << v.dimension << " can not be added." << std::endl;
+		std::exit(EXIT_FAILURE);
+	}
 	for(unsigned int i = 0; i < dimension; i++)
 		components[i] += v[i];
 	return *this;
@@ -203,6 +208,11 @@ Vector& Vector::operator+=(const Vector& v)
 
 Vector& Vector::operator-=(const Vector& v)
 {
+	if(dimension != v.dimension)
+	{
+		std::cerr << "Error in libphysica::Vector::operator-=(const Vector& v): Two vectors of dimensions " << dimension << " and " << v.dimension << " can not be subtracted." << std::endl;
+		std::exit(EXIT_FAILURE);
+	}
 	for(unsigned int i = 0; i < dimension; i++)
 		components[i] -= v[i];
 	return *this;
